@@ -62,6 +62,8 @@ func (f *coroFam) inner() *factsFam {
 		st(true, "this.r = this.a[s[0]]"),
 		st(true, "this.r = this.a[b[0]]"),
 		st(true, "this.r = s[i]"),
+		st(true, "this.r = s[0]"),
+		st(true, "s[3] = 1"),
 		st(true, "this.a[u] = 1"),
 	}
 	return g
@@ -85,8 +87,8 @@ func (f *ioFam) inner() *factsFam {
 		g.maxFull, g.maxCore = 2, 3
 	}
 	g.wrap = func(body []string) string {
-		fields := []string{"f : base.u32", "r : base.u8", "q : base.u32"}
-		m := fn{header: "pub func foo.m!(dst: base.io_writer, src: base.io_reader, x: base.u32[..= 5], t: slice base.u8)",
+		fields := []string{"f : base.u32", "r : base.u8", "q : base.u32", "a : array[2] base.u8"}
+		m := fn{header: "pub func foo.m!(dst: base.io_writer, src: base.io_reader, x: base.u32[..= 4], t: slice base.u8)",
 			vars: []string{"v : base.u8", "u : base.u32", "n : base.u32", "rd : base.io_reader", "wr : base.io_writer"}, body: body}
 		return render("foo", fields, m)
 	}
@@ -96,6 +98,8 @@ func (f *ioFam) inner() *factsFam {
 		op(true, "args.src.length() >= 4"),
 		op(false, "args.src.length() > 1"),
 		op(false, "args.src.length() == 2"),
+		op(false, "args.src.length() == 4"),
+		op(false, "args.src.length() <= 4"),
 		op(false, "args.src.length() >= (args.x as base.u64)"),
 		op(true, "args.dst.length() >= 1"),
 		op(true, "args.dst.length() >= 2"),
@@ -129,12 +133,17 @@ func (f *ioFam) inner() *factsFam {
 		st(false, "io_forget_history (io: args.dst) {", "args.dst.write_u8_fast!(a: 7)", "}"),
 		st(false, "n = args.dst.limited_copy_u32_from_reader!(up_to: 2, r: args.src)"),
 	}
+	if f.thorough {
+		g.alpha = append(g.alpha, op(false, "args.src.length() < 4"), op(false, "args.src.length() <> 4"), op(false, "args.dst.length() == 2"))
+	}
 	g.probes = []item{
 		st(true, "this.r = args.src.peek_u8()"),
 		st(true, "this.q = args.src.peek_u16le_as_u32()"),
 		st(true, "args.src.skip_u32_fast!(actual: 1, worst_case: 1)"),
 		st(true, "args.dst.write_u8_fast!(a: 9)"),
 		st(true, "args.src.undo_byte!()"),
+		st(true, "this.r = this.a[args.src.length()]"),
+		st(true, "this.q = args.src.peek_u32le()"),
 	}
 	return g
 }
